@@ -272,7 +272,9 @@ func (self *VM) SpawnAsync(
 		}
 
 		// Pass on what the validation admitted (e.g. a `T` wrapped into a `?T`), not the raw argument.
-		checkedArgs[index] = *converted
+		// The callee gets its own copy: the validation hands some values on as they are (an any-object),
+		// and a function which changes its parameter in place must not change the value of the host.
+		checkedArgs[index] = *(*converted).Clone()
 		index++
 	}
 
@@ -326,7 +328,9 @@ func (self *VM) SpawnSync(
 		}
 
 		// Pass on what the validation admitted (e.g. a `T` wrapped into a `?T`), not the raw argument.
-		checkedArgs[index] = *converted
+		// The callee gets its own copy: the validation hands some values on as they are (an any-object),
+		// and a function which changes its parameter in place must not change the value of the host.
+		checkedArgs[index] = *(*converted).Clone()
 		index++
 	}
 
